@@ -135,7 +135,7 @@ def streams(pid, tier, rng, scale=1):
             if op == 'clamp':
                 sg = lambda v: v - (1 << n) if v >> (n - 1) else v
                 if sg(vals[1]) > sg(vals[2]): continue      # documented precondition (asserted): min <= max
-            if ty == 'p32' and op in ('sin', 'cos', 'tan'):
+            if ty == 'p32' and op in ('sin', 'cos', 'tan', 'Float_sin', 'Float_cos', 'Float_tan'):
                 a_ = vals[0] if vals[0] < (1 << 31) else (1 << 32) - vals[0]
                 if a_ >= 0x7d400000 and vals[0] != (1 << 31): continue   # |x| >= 393216: explicit todo!() branch, outside C15/C16
             lines.append(ty + ' ' + op + ' ' + ' '.join('%x' % v for v in vals))
@@ -310,6 +310,34 @@ def quire_tie_history(qt, rng):
         return qt + ' hist ' + ' '.join(x if isinstance(x, str) else '%x' % x for t in terms for x in t)
     return qt + ' hist a1 1'
 
+def quire_state_history(qt, rng):
+    """a history that starts from an arbitrary accumulator image (`fb` = Q::from_bits, public API): +-2^k (+- a little) for every bit
+    position k of the accumulator, images next to the ends of the range, random images, the NaR image; followed by 0..2 ordinary terms.
+    Reaches the states no short history of products can build (|sum| far above maxpos^2 * 24)."""
+    from .gen_inputs import anyp
+    n = QT[qt]; w = {8: 32, 16: 128, 32: 512}[n]
+    M = (1 << w) - 1
+    t = rng.random()
+    if t < 0.45:
+        k = rng.randint(0, w - 2); v = 1 << k
+        d = rng.choice((0, 0, 1, -1, 1 << rng.randint(0, max(0, k - 1)) if k else 0, (1 << k) - 1, rng.getrandbits(k) if k else 0))
+        v = v + d
+    elif t < 0.6: v = (1 << (w - 1)) - 1 - rng.choice((0, 1, 2, rng.getrandbits(8), rng.getrandbits(w - 2)))
+    elif t < 0.9: v = rng.getrandbits(rng.randint(1, w - 1))
+    elif t < 0.95: v = rng.getrandbits(w - 1)
+    else: v = 1 << (w - 1)                                   # NaR
+    if rng.random() < 0.5 and v != (1 << (w - 1)): v = (-v) & M
+    toks = ['fb', '%x' % (v & M)]
+    for _ in range(rng.choice((0, 0, 1, 1, 2))):
+        k = rng.randint(0, 5)
+        P = lambda: anyp(n, rng) if rng.random() < 0.7 else rng.choice((1, (1 << (n - 1)) - 1, (1 << (n - 1)) + 1, (1 << n) - 1, 1 << (n - 2)))
+        if k <= 1: toks += ['ap', '%x' % P(), '%x' % P()]
+        elif k == 2: toks += ['sp', '%x' % P(), '%x' % P()]
+        elif k == 3: toks += [rng.choice(('a1', 's1')), '%x' % P()]
+        elif k == 4: toks += ['neg']
+        else: toks += ['rt']
+    return qt + ' hist ' + ' '.join(toks)
+
 def quire_history_px(N, rng, maxlen=10):
     """the same grammar on Q32E2 with PxE2<N> operands: N-bit posit patterns left-aligned in 32 bits (no inherent mp/ms methods)"""
     line = quire_history('q32' if N > 16 else ('q16' if N > 8 else 'q8'), rng, maxlen=maxlen)
@@ -397,6 +425,8 @@ def extra_streams(pid, tier, rng, scale):
                         lines.append(qt + ' hist ' + ' '.join(' '.join(t) for t in trip))
             for _ in range({'C04': 4000, 'C12': 4000, 'C16': 800, 'C17': 200}[pid] * scale * big):
                 lines.append(quire_tie_history(qt, rng))
+            for _ in range({'C04': 4000, 'C12': 4000, 'C16': 1500, 'C17': 200}[pid] * scale * big):
+                lines.append(quire_state_history(qt, rng))
     if pid in ('C14', 'C16', 'C17'):
         # Q32E2 with generic-width operands: PxE2<N>::from(&q), Quire<PxE2<N>>::to_posit, PxE2<N>::from(q) after a history
         cntpx = {'C14': 600, 'C16': 60, 'C17': 120}[pid] * scale * big
@@ -480,6 +510,19 @@ def extra_streams(pid, tier, rng, scale):
         if os.path.exists(cache):
             for x_ in open(cache).read().split():
                 lines.append('p32 sqrt ' + x_)
+        # exhaustive SEARCH (not a proof): the freshly built release harness compares P32E2::sqrt on all 2^31 - 1 positive patterns with
+        # its own exact integer reference (6 s); every disagreeing or panicking input becomes a line judged by the specification below
+        if pid == 'C06' or tier == 'thorough':
+            import subprocess
+            exe = os.path.join(core.TARGET, 'release', 'verif_harness')
+            try:
+                r_ = subprocess.run([exe, '--sqrt-scan', '2000'], capture_output=True, text=True, timeout=1200)
+                cand = r_.stdout.split() if r_.returncode == 0 else []
+            except Exception:
+                cand = []
+            core.NOTES.append('sqrt-scan: %d candidate inputs of 2^31-1' % len(cand)) if hasattr(core, 'NOTES') else None
+            for x_ in cand:
+                lines.append('p32 sqrt ' + x_); lines.append('p32 Float_sqrt ' + x_)
     if pid == 'C15':
         import math
         sys_path = os.path.join(core.VERIF, 'tools')
